@@ -538,6 +538,12 @@ func (r *refRun) feed(st *refConnState, s *RStep, i int) bool {
 		st.conn.EOF()
 		return st.conn.WaitQuiesce()
 	}
+	if s.P.K == "bytes" {
+		// a raw octet stream, not framed as a packet (hostile input for C14)
+		r.rec.Emit(E{"e": "feedraw", "c": st.c, "n": len(s.P.Raw)})
+		st.conn.Feed([]byte(s.P.Raw))
+		return st.conn.WaitQuiesce()
+	}
 	body := s.P.encode()
 	sid := r.sidPool[s.Sid%len(r.sidPool)]
 	ty := s.Ty
